@@ -119,16 +119,17 @@ class LockProto:
         return None
 
 
-def _run_lock_method(lp: LockProto, g: CFG, abort_summary=None, start_state=("HELD", False)):
-    """Typestate over one method of the lock class.  state = (phase, closed_flag).
-    Returns (product, problems) where problems = [(kind, node id, state)]."""
+def _run_lock_method(lp: LockProto, g: CFG, abort_summary=None, start_state=("HELD", False, False)):
+    """Typestate over one method of the lock class.  state = (phase, closed_flag, gone) where `gone` records that the
+    lock path was given up for certain (unlink returned normally, or the rename succeeded): from then on the path may
+    belong to another writer.  Returns (product, problems) where problems = [(kind, node id, state)]."""
     problems = []
 
     def node_fn(node, st):
         return st
 
     def edge_fn(node, st, label, succ):
-        phase, closed = st
+        phase, closed, gone = st
         pol = lp.closed_test(node)
         if pol is not None and label in ("true", "false"):
             if (label == "true") != closed:
@@ -139,11 +140,14 @@ def _run_lock_method(lp: LockProto, g: CFG, abort_summary=None, start_state=("HE
             if e == "RENAME":
                 if not exc and phase == "HELD":
                     phase = "TRANSFERRED"
+                    gone = True
             elif e == "REMOVE":
                 if phase == "TRANSFERRED":
                     problems.append(("unlink-after-rename", node.id, st))
                 elif phase == "HELD":
                     phase = "RELEASED"   # attempted on both edges: failure of the unlink itself is not modelled
+                if not exc:
+                    gone = True
             elif e == "SETCLOSED":
                 if not exc:
                     closed = True
@@ -158,7 +162,14 @@ def _run_lock_method(lp: LockProto, g: CFG, abort_summary=None, start_state=("HE
                             phase = "RELEASED"
                     if not exc:
                         closed = True
-        return (phase, closed)
+                        gone = True
+                    elif abort_summary.get("flag_ok_on_raise", False):
+                        # abort() raised: by its own R07.1g every such exit has (path gone => flag set); represent it by
+                        # the stronger of the two cases
+                        closed, gone = True, True
+                    else:
+                        gone = True     # abort() may have unlinked before it raised, without setting the flag
+        return (phase, closed, gone)
 
     prod = Product(g, [(g.entry, start_state)], node_fn, edge_fn)
     return prod, problems
@@ -191,6 +202,37 @@ def r07_1(prog: Program, rep):
     rep.ob("R07.1a", F, q("__init__"), "single acquisition call", not others,
            "additional open() in the acquisition path" if others else "", lp.init.node.lineno)
 
+    # a failed acquisition owns nothing: no unlink of the lock path is reachable from the exception edge of the os.open
+    # (the file that exists there is the current holder's lock).  Tests of the descriptor variable are evaluated: it is
+    # still unbound/None on that edge.
+    gi = cfg_of(prog, lp.init)
+    onodes = [i for i, n in gi.nodes.items() if any(c is lp.open_call for c in node_calls(n))]
+    fdvar = None
+    for i in onodes:
+        a_ = gi.nodes[i].ast
+        if isinstance(a_, ast.Assign) and isinstance(a_.targets[0], ast.Name):
+            fdvar = a_.targets[0].id
+
+    def fd_none_edge(a, b, l):
+        n = gi.nodes[a]
+        if n.kind != "test" or fdvar is None:
+            return True
+        t = n.ast
+        if isinstance(t, ast.Name) and t.id == fdvar:
+            return l != "true"
+        if isinstance(t, ast.Compare) and len(t.ops) == 1 and isinstance(t.left, ast.Name) and t.left.id == fdvar \
+                and isinstance(t.comparators[0], ast.Constant) and t.comparators[0].value is None:
+            if isinstance(t.ops[0], ast.IsNot):
+                return l != "true"
+            if isinstance(t.ops[0], ast.Is):
+                return l != "false"
+        return True
+    fail = [b for i in onodes for b, l in gi.succ[i] if l in EXC_LABELS]
+    r_ = reach(gi, fail, include_srcs=True, edge_ok=fd_none_edge) if fail else set()
+    rm = [i for i in r_ if "REMOVE" in lp.events(gi.nodes[i])]
+    rep.ob("R07.1a", F, q("__init__"), "a failed acquisition never unlinks the lock path (it belongs to the holder)", bool(onodes) and not rm,
+           "os.remove(<path>.lock) is reachable after os.open(O_EXCL) itself failed (EMFILE, ENOMEM, interrupt...): the "
+           "contender deletes the current holder's lock file", gi.nodes[rm[0]].line if rm else lp.open_call.lineno)
     # abort summary
     abort = lp.m.funcs.get(q("abort"))
     close = lp.m.funcs.get(q("close"))
@@ -202,7 +244,14 @@ def r07_1(prog: Program, rep):
     normal_ok = all(st[0] != "HELD" for st in prod.states_at(ga.exit_normal))
     raise_states = prod.states_at(ga.exit_raise)
     raise_ok = all(st[0] != "HELD" for st in raise_states)
-    summary = {"normal": normal_ok, "raise": raise_ok}
+    # R07.1g ownership flag: once the lock path is gone for certain, the handle must know it (flag set) on EVERY way out,
+    # otherwise a second abort()/close()/__del__ unlinks a path that may by then be another writer's lock
+    flag_bad = [(ex, st) for ex in (ga.exit_normal, ga.exit_raise) for st in prod.states_at(ex) if st[2] and not st[1]]
+    rep.ob("R07.1g", F, q("abort"), "whenever abort() leaves with the lock path unlinked, the closed flag is set (normal and raising exits)", not flag_bad,
+           "abort() can raise after it unlinked the lock file without recording that: a later abort() (error handler, __del__) "
+           "unlinks the path again, by then possibly another writer's lock", abort.node.lineno,
+           lines(ga, prod.witness(flag_bad[0][0], flag_bad[0][1])) if flag_bad else [])
+    summary = {"normal": normal_ok, "raise": raise_ok, "flag_ok_on_raise": not any(st[2] and not st[1] for st in raise_states)}
     rep.ob("R07.1d", F, q("abort"), "abort removes the lock on every normal path", normal_ok, "", abort.node.lineno)
     w = []
     for st in raise_states:
@@ -259,6 +308,11 @@ def r07_1(prog: Program, rep):
     rep.ob("R07.1d", F, q("close"), "a failing close releases the lock", not held_raise,
            "a path raises out of close() with the lock file left behind", close.node.lineno,
            lines(gc, prod.witness(gc.exit_raise, held_raise[0])) if held_raise else [])
+    flag_bad = [(ex, st) for ex in (gc.exit_normal, gc.exit_raise) for st in prod.states_at(ex) if st[2] and not st[1]]
+    rep.ob("R07.1g", F, q("close"), "whenever close() leaves with the lock path renamed or unlinked, the closed flag is set (normal and raising exits)",
+           not flag_bad, "close() can leave after the lock path was given up without recording that: a later abort()/close() "
+           "(error handler, __del__) unlinks or renames a path that may by then be another writer's lock", close.node.lineno,
+           lines(gc, prod.witness(flag_bad[0][0], flag_bad[0][1])) if flag_bad else [])
     held_norm = [st for st in prod.states_at(gc.exit_normal) if st[0] == "HELD" and not st[1]]
     rep.ob("R07.1d", F, q("close"), "close never returns normally still holding", not held_norm, "", close.node.lineno)
 
@@ -575,6 +629,45 @@ def r07_2(prog: Program, rep):
                 probs = [p for p in probs if p[0] == "commit-on-failure-path"]
                 rep.note(f"{rel}:{qual}: handle parked on {parked_attr}; a failure between acquisition and the end of "
                          f"{f.name} relies on the finaliser (__del__) to release the lock (assumption)")
+        # R07.2w no commit of an unwritten lock file: leaving a `with GitFile(.., "wb")` block by return/break/continue
+        # COMMITS (only an exception or abort() discards).  A jump out of the block that can be reached before anything
+        # was written through the handle replaces the protected file by an empty one.  (Falling off the end of the block
+        # after a loop of zero iterations or a skipped optional write is a legitimate empty file and is not constrained.)
+        if shape == "with" and not (escaped or hr.parked):
+            wnode = m.parents.get(m.parents.get(call))
+            names = hr.same | hr.aliases
+            writes = set()
+            for i, n in g.nodes.items():
+                for c in node_calls(n):
+                    if isinstance(c.func, ast.Attribute) and _handle_name(c.func.value) in names and \
+                            (c.func.attr.startswith("write") or c.func.attr in ("truncate",)):
+                        writes.add(i)
+                    elif callee_name(c) not in wrappers and any(_handle_name(a) in names for a in list(c.args) + [k.value for k in c.keywords]):
+                        writes.add(i)
+                    elif isinstance(c.func, ast.Attribute) and c.func.attr in hr.abort_attrs and _handle_name(c.func.value) in names:
+                        writes.add(i)       # an explicit abort() before the jump discards: nothing is committed
+            jumps = []
+            if isinstance(wnode, ast.With):
+                def leaving(stmts, loops):
+                    for s_ in stmts:
+                        if isinstance(s_, (ast.FunctionDef, ast.AsyncFunctionDef, ast.ClassDef)):
+                            continue
+                        if isinstance(s_, ast.Return) or (isinstance(s_, (ast.Break, ast.Continue)) and loops == 0):
+                            jumps.append(s_)
+                        inner = loops + (1 if isinstance(s_, (ast.For, ast.While)) else 0)
+                        for fld in ("body", "orelse", "finalbody"):
+                            if isinstance(getattr(s_, fld, None), list):
+                                # the else-arm of a loop is outside the loop for break/continue purposes
+                                leaving(getattr(s_, fld), inner if fld == "body" else loops)
+                        for h in getattr(s_, "handlers", []) or []:
+                            leaving(h.body, loops)
+                leaving(wnode.body, 0)
+            jn = [i for i, n in g.nodes.items() if n.kind == "stmt" and n.ast in jumps]
+            bad = must_pass(g, jn, writes, start=[b_ for b_, _ in start]) if jn else []
+            rep.ob("R07.2w", rel, qual, f"no jump out of `with {norm(call, 50)}` before something was written through {handle}", not bad,
+                   "a return/break/continue leaves the with-block before anything was written: __exit__ COMMITS, so the protected "
+                   "file is replaced by an empty one (use abort() to give up)",
+                   g.nodes[bad[0]].line if bad else call.lineno)
         kinds = sorted({k for k, _, _ in probs})
         if not kinds:
             rep.ob("R07.2", rel, qual, key, True, f"{shape}; released on all paths", call.lineno)
@@ -621,6 +714,8 @@ def run(prog: Program, rep, tier="quick"):
     rep.rule("R07.1c", "typestate: no unlink of the lock path is reachable after a successful rename "
                        "(never disturbs a lock taken by someone else)")
     rep.rule("R07.1d", "every exceptional path out of close()/abort() has removed the lock or renamed it")
+    rep.rule("R07.2w", "no early exit (return/break/continue) out of a `with GitFile(.., 'wb')` block before anything was written: it would commit an empty file")
+    rep.rule("R07.1g", "ownership flag agrees with the lock state on every exit of close()/abort() (no second unlink of a path given up)")
     rep.rule("R07.1e", "abort never touches the protected path")
     rep.rule("R07.1f", "__exit__ aborts on exception, commits otherwise; __del__ aborts")
     rep.rule("R07.2", "RELEASE-ON-EXIT for every write-mode GitFile user: normal exits pass commit|abort, "
